@@ -78,9 +78,13 @@ def _bounded_chunk(a, maxp):
     return False
 
 
-def classify(name, args, path_before, maxp):
+def classify(name, args, path_before, maxp, generic=False):
     """-> (class, detail)"""
     idx = SIZE_ARG.get(name)
+    if idx is None and generic:
+        # an unnamed sized constructor: any argument that depends on the input is taken as its size
+        tainted = [i for i, a in enumerate(args) if tainted_atoms(strip(a)) and not is_sanitised(strip(a), maxp)]
+        idx = tainted[0] if tainted else 0
     if idx is None or idx >= len(args):
         return 'n/a', ''
     size = strip(args[idx])
@@ -115,7 +119,10 @@ def check_sinks(out, facts):
     out.ob('R09.1', 'MAX_PREALLOCATION <= 16 KiB [%s]' % cfg, isinstance(maxp, int) and 0 < maxp <= 16 * 1024, 'MAX_PREALLOCATION = %s' % maxp, 'src/codec.rs')
     n_sinks = 0
     classes = {}
-    for f, kind in decoder_fns(facts) + [(g, 'input') for g in facts.methods('Input') if g['kind'] == 'AssocFn' and g['method'] == 'scale_internal_decode_bytes']:
+    input_fns = [g for g in facts.methods('Input') if g['kind'] == 'AssocFn' and g['method'] == 'scale_internal_decode_bytes']
+    # the trait's own default bodies decode too (the default zero-copy hook builds a Bytes from a decoded Vec<u8>)
+    input_fns += [g for g in facts.fns if g['kind'] == 'AssocFn' and g.get('ctx') == 'trait_default' and tname(g.get('trait') or '') == 'Input' and g.get('thir')]
+    for f, kind in decoder_fns(facts) + [(g, 'input') for g in input_fns]:
         if kind == 'input':
             ev = sym.Evaluator(facts)
             ev.extra_inputs.append(('self',))
@@ -136,11 +143,12 @@ def check_sinks(out, facts):
                 if e[0] not in ('ALLOC', 'MUTCALL'):
                     continue
                 name = e[1]
-                if name not in SIZE_ARG:
+                generic = e[0] == 'ALLOC' and len(e) > 7 and e[7] == 'generic'
+                if name not in SIZE_ARG and not generic:
                     continue
                 # only heap containers (Vec / String / VecDeque / BitVec / Bytes / raw alloc)
                 sig = (name, ', '.join(sym.vstr(a) for a in e[3])[:300])
-                cls, detail = classify(name, e[3], p[:idx], maxp)
+                cls, detail = classify(name, e[3], p[:idx], maxp, generic)
                 if sig in seen:
                     continue
                 seen.add(sig)
